@@ -14,9 +14,10 @@ def _rand_poly(rng, rows, cols):
     import puan
     import puan.ndarray as pnd
     big = rng.random() < 0.35   # coefficients of larger magnitude (division rounding, float representation)
-    coef = (lambda: rng.choice([-1, 1]) * rng.randint(5, 120)) if big else (lambda: rng.choice(PALETTE))
+    huge = big and rng.random() < 0.2   # row values far outside the 16-bit default range of variable bounds
+    coef = (lambda: rng.choice([-1, 1]) * rng.randint(5, 120) * (250 if huge else 1)) if big else (lambda: rng.choice(PALETTE))
     A = [[coef() if rng.random() < 0.75 else 0 for _ in range(cols)] for _ in range(rows)]
-    b = [rng.randint(-5, 5) * (rng.choice([1, 7, 25, 49, 75]) if big else 1) for _ in range(rows)]
+    b = [rng.randint(-5, 5) * (rng.choice([1, 7, 25, 49, 75]) if big else 1) * (250 if huge else 1) for _ in range(rows)]
     if big and rng.random() < 0.6:
         # right-hand sides that are exact multiples of a coefficient: quotients are integers, rounding must not move them
         for i in range(rows):
@@ -111,6 +112,48 @@ def c12_tighten(tier, seed):
     return _finish(r)
 
 
+def _chain_poly(rng):
+    """4-5 columns, propagation that needs several passes of the fix-point loop: a unit row forces one column, implication
+    rows (x_b >= x_a, x_c <= 1 - x_a, x_a + x_b >= 2, ...) force further ones only after substitution, other columns stay free;
+    columns are permuted so that later-fixed columns sit before and after earlier-fixed ones"""
+    import numpy as np
+    import puan
+    import puan.ndarray as pnd
+    cols = rng.randint(4, 5)
+    perm = list(range(cols))
+    rng.shuffle(perm)
+    rows = []
+
+    def row(b, terms):
+        r_ = [0] * cols
+        for j, v in terms:
+            r_[perm[j]] += v
+        rows.append([b] + r_)
+    kind = rng.randrange(6)
+    row(1, [(0, 1)])                                   # x0 >= 1
+    if kind in (0, 1, 2):
+        row(0, [(0, -1), (1, 1)])                      # x1 >= x0
+    if kind in (1, 3):
+        row(-1, [(0, -1), (2, -1)])                    # x2 <= 1 - x0
+    if kind in (2, 4):
+        row(0, [(1, -1), (3, 1)])                      # x3 >= x1
+    if kind in (3, 5):
+        row(2, [(0, 1), (1, 1)])                       # x0 + x1 >= 2
+    if kind in (4, 5):
+        row(rng.choice([1, 2]), [(1, 1), (2, 1), (3, 1)])
+    if rng.random() < 0.5:
+        row(-1, [(cols - 1, -1)])                      # tautology on the last column
+    if rng.random() < 0.3:
+        row(rng.choice([1, 0, -1]), [(2, 1), (3, -1)])
+    rng.shuffle(rows)
+    M = np.array(rows, dtype=np.int64)
+    boxes = [(0, 1)] * cols
+    if rng.random() < 0.3:
+        boxes[perm[rng.randrange(cols)]] = (0, 2)
+    vs = [puan.variable(0, (1, 1))] + [puan.variable("v%d" % j, boxes[j]) for j in range(cols)]
+    return pnd.ge_polyhedron(M, variables=vs, index=[puan.variable("r%d" % i) for i in range(len(rows))])
+
+
 def c11_reduce(tier, seed):
     """C11: reducible rows hold on the box; forced columns forced in every solution; reduced polyhedron = projection"""
     import numpy as np
@@ -120,8 +163,9 @@ def c11_reduce(tier, seed):
                 "non-trivial = distinct (some row reducible, some column forced, empty)")
     rng = random.Random(seed + 111)
     n = 250 if tier == "quick" else 2500
-    for _ in range(n):
-        p = _rand_poly(rng, rng.randint(1, 3), rng.randint(1, 3))
+    for k_ in range(n + n // 2):
+        # two thirds random small matrices, one third multi-pass propagation chains over 4-5 columns
+        p = _rand_poly(rng, rng.randint(1, 3), rng.randint(1, 3)) if k_ < n else _chain_poly(rng)
         cols = list(p.A.variables)
         w = _dump(p)
         A, b = np.asarray(p.A), np.asarray(p.b)
